@@ -1,3 +1,7 @@
+// Demonstration for the C01 defect repaired by the /repo commit "fix: GV rescaling is skipped when the
+// eligible frames have no variance".  Place under <repo>/tests/ and run
+// `cargo test --offline --test c01_gv_single_eligible_frame`: NaN at the single eligible frame on the
+// original tree, finite on the repaired one.  Uses only public types (MlpgAdjust, ModelStream, ..).
 use jbonsai::mlpg_adjust::MlpgAdjust;
 use jbonsai::model::voice::window::{Window, Windows};
 use jbonsai::model::{MeanVari, ModelStream, StreamParameter};
